@@ -37,6 +37,7 @@ structure St where
   rl     : RL.State := RL.init 0 0
   hist   : Cl.Hist := ⟨0, []⟩
   cl     : Option Cl.Client := none
+  latest : Nat := 0
   lines  : Nat := 0
   mism   : Nat := 0
   misses : Nat := 0
@@ -270,6 +271,11 @@ def handlePure (st : St) (kind : String) (a : Args) (obs : String) : IO St := do
       | none => "none"
       | some ws => joinWith "#" (ws.map (fun w => week w ++ "/" ++ hx w.sig)))
   | "crypto.check" => chk "ok"
+  -- property oracles evaluated on the implementation side (archives re-verified with the real decoders)
+  | "c14.archive" => chk "ok"
+  | "c14.rate" => chk "ok"
+  | "c08.check" => chk "ok"
+  | "c05.crash" => chk "ok"
   | "codec.smap.enc1" =>
     let e : CEntry := (argHex a "key", ⟨arg a "banned" == "1", argHex a "loc", argNat a "http", argNat a "tcp", argNat a "udp"⟩)
     chk (match CServer.encodeMap [e] with | none => "none" | some b => hx b)
@@ -361,8 +367,28 @@ def canonCServers (m : FMap Bytes CServer) : String :=
   joinWith ";" (sortStrings (m.map (fun e =>
     s!"{hx e.1},{if e.2.banned then 1 else 0},{hx e.2.loc},{e.2.http},{e.2.tcp},{e.2.udp}")))
 
+def parseRecs (s : String) : List Cl.Record :=
+  (if s.isEmpty then [] else s.splitOn ",").filterMap (fun e => match e.splitOn "." with
+    | [t, v] => match t.toNat?, v.toNat? with
+      | some t, some v => some ⟨t, v⟩
+      | _, _ => none
+    | _ => none)
+
 def handleCl (st : St) (kind : String) (a : Args) (obs : String) : IO St := do
   match kind with
+  | "cl.loop.start" =>
+    -- client (re)start: every record of the file is saved, nothing is sent
+    let (h, l) := Cl.startup st.hist (parseRecs (arg a "recs"))
+    return { st with hist := h, latest := l }
+  | "cl.loop.iter" =>
+    -- the harness waits several loop iterations after each file edit: the sends of the first iteration
+    -- on the new content are all there is (later iterations send nothing new)
+    let recs := parseRecs (arg a "recs")
+    let (h, l, sent) := Cl.loopIter st.hist st.latest recs
+    let (h2, l2, sent2) := Cl.loopIter h l recs
+    let st := { st with hist := h2, latest := l2 }
+    let m := s!"{joinWith "," ((sent ++ sent2).map (fun r => s!"{r.ts}.{r.energy}"))} {histCanon h2}"
+    if m == obs then return st else report st kind m obs
   | "cl.client.new" =>
     let sv := parseCServers (arg a "servers")
     return { st with cl := some { pubKey := argHex a "ck", gcaKey := argHex a "gk", shortId := argNat a "id", servers := sv,
